@@ -640,6 +640,12 @@ func (c *HTTPClient) MembershipAutoVerify(eventDigest hashing.Digest, version *u
 		return false, err
 	}
 
+	// The answer must be about the version that was asked for: the snapshots
+	// are chosen by the versions it carries.
+	if version != nil && proof.QueryVersion != *version {
+		return false, fmt.Errorf("the membership answer is for version %d, not for the queried version %d", proof.QueryVersion, *version)
+	}
+
 	// Build snapshot info from snapshot store and params.
 	snapshot := &balloon.Snapshot{
 		HistoryDigest: nil,
